@@ -9,7 +9,7 @@ ASSUMPTIONS = [
     "trusted: clang 14 + ASan/UBSan, rapidcheck",
 ]
 SUBS = [dict(name="c09", fork=True, quick=dict(cases=700, shards=16), thorough=dict(cases=30000, shards=16))]
-WRAPS = ["poll", "recv", "send", "connect", "accept", "getsockopt", "setsockopt", "socket", "close", "bind", "fcntl",
+WRAPS = ["poll", "recv", "send", "connect", "accept", "getsockopt", "setsockopt", "socket", "close", "bind", "fcntl", "shutdown",
          "malloc", "calloc", "realloc", "free"]
 FILL_BYTES = [0xbe, 0x0a, 0x00, 0x20, 0xff, 0x0d, 0x30]
 
